@@ -33,6 +33,7 @@ class Fn:
         macros=None,
         fragment=None,
         str_match=False,
+        arms=None,
     ):
         self.file = file
         self.path = path if isinstance(path, list) else [p.strip() for p in path.split("::")]
@@ -70,6 +71,8 @@ class Fn:
         self.fragment = fragment
         # R14: desugar one `match` on string literals into an if-chain over `str_is`
         self.str_match = str_match
+        # R5 (arm form): [(pattern text, new body)]
+        self.arms = arms or []
 
 
 class Type:
@@ -144,6 +147,8 @@ def emit(unit):
             msf = source(mfile)
             ma, mb = msf.find_item(mpath if isinstance(mpath, list) else [x.strip() for x in mpath.split("::")])
             rw.expand_macro(mname, msf.text[ma:mb])  # (a macro that is not invoked here is simply not expanded)
+        for apat, abody in getattr(it, "arms", []) or []:
+            rw.replace_arm_body(apat, abody)
         for s in it.subst:
             old, new = s[0], s[1]
             cnt = s[2] if len(s) > 2 else 1
